@@ -435,7 +435,7 @@ static void cmd_w(int nt, char **t)
 	if (k1 == 0 || k1 > N) k1 = N;
 	for (k = k0 ? k0 : 1; k <= k1; k++) {
 		const char *v = "ok"; char vb[260];
-		printf("K %d %lu\n", w, k); fflush(stdout);
+		printf("K %d %lu\n", w, k); fflush(stdout); vf_progress++;
 		live0 = vf_live_blocks;
 		serial0 = vf_next_serial();
 		run_one(&c, w, k, k2off ? k + k2off : 0);
@@ -463,8 +463,10 @@ int main(int argc, char **argv)
 	if (argc > 1) { in = fopen(argv[1], "r"); if (!in) { perror(argv[1]); return 3; } }
 	if (argc > 2) { if (!freopen(argv[2], "w", stdout)) { perror(argv[2]); return 3; } }
 	build_table();
+	vf_watchdog_init();
 	while ((k = getline(&line, &cap, in)) > 0) {
 		int nt = split_tokens(line, &tokv, &tokcap);
+		vf_progress++;
 		if (!nt) continue;
 		if (!strcmp(tokv[0], "CASE")) { printf("C %s\n", nt > 1 ? tokv[1] : "?"); fflush(stdout); continue; }
 		if (!strcmp(tokv[0], "END")) { printf("E live=0\n"); fflush(stdout); continue; }
